@@ -226,7 +226,7 @@ func main() {
 	viol := func(oracle, file, name, what string, val string) {
 		h.ViolateMin(fmt.Sprintf("C19/%s/%s", oracle, name), what, c19case{File: file, Name: name, Oracle: oracle, Value: val}, len(val))
 	}
-	nReq, nScan := 0, 0
+	nReq, nScan, nExtVars := 0, 0, 0
 	for _, fname := range names {
 		fd := files[fname]
 		// (a) registered descriptor == schema
@@ -308,6 +308,35 @@ func main() {
 				}
 			}
 		}
+		// extension fields the file declares: reachable through the type registry under their full name, backed by this
+		// file's own descriptor, and the exported E_ variable that protoc-gen-go's naming rules give each of them IS that type
+		var xds []protoreflect.ExtensionDescriptor
+		for i := 0; i < fd.Extensions().Len(); i++ {
+			xds = append(xds, fd.Extensions().Get(i))
+		}
+		for _, md := range allMessages(fd) {
+			for i := 0; i < md.Extensions().Len(); i++ {
+				xds = append(xds, md.Extensions().Get(i))
+			}
+		}
+		for _, xd := range xds {
+			full := string(xd.FullName())
+			h.Eval(true, hz.Hash("C19ext", full))
+			xt, err := protoregistry.GlobalTypes.FindExtensionByName(xd.FullName())
+			if err != nil {
+				viol("extension-not-registered", fname, full, fmt.Sprintf("extension field %s declared by %s is not in the type registry: %v", full, fname, err), "")
+				continue
+			}
+			if xt.TypeDescriptor().Descriptor() != xd || xt.TypeDescriptor().FullName() != xd.FullName() || xt.TypeDescriptor().Number() != xd.Number() {
+				viol("extension-type-differs", fname, full, fmt.Sprintf("the extension type registered as %s describes %s = %d, not the field %s = %d of the registered file", full, xt.TypeDescriptor().FullName(), xt.TypeDescriptor().Number(), full, xd.Number()), "")
+			}
+			if v, ok := extVars[full]; ok {
+				nExtVars++
+				if v != xt || v.TypeDescriptor().FullName() != xd.FullName() {
+					viol("extension-variable-denotes-another-extension", fname, full, fmt.Sprintf("the Go variable generated for extension %s denotes %s = %d", full, v.TypeDescriptor().FullName(), v.TypeDescriptor().Number()), "")
+				}
+			}
+		}
 		// (b) registries, types
 		for _, md := range allMessages(fd) {
 			checkMessageType(h, fname, md, viol)
@@ -325,6 +354,7 @@ func main() {
 	}
 	h.Rep.Bounds["files"] = names
 	h.Rep.Bounds["files_compared_with_request_descriptors"] = nReq
+	h.Rep.Bounds["extension_variables_checked"] = nExtVars
 	h.Rep.Bounds["checked_in_files_compared_with_proto_source_scan"] = nScan
 	h.Sample(map[string]interface{}{"file": names[0], "oracles": "descriptor==schema, registry lookups, Descriptor identity, Type/New/Zero Go types, getters (incl. nil receiver) vs Get, Reset, String round trip, enum String/Number/Descriptor/Type"})
 	h.Rep.Rule = "every generated file in the binary (checked-in packages, freshly generated mx, and - inside C12 - the schema corpus) x every message, enum and field; getters/Reset/String over every <=1-slot value (boundary alphabet) and nil receivers; finite and complete for the packages present; distinct = hash(oracle, symbol, value)"
